@@ -15,4 +15,5 @@ for id in "$@"; do
   if [ -n "${VERBOSE:-}" ]; then echo "$out" | tail -15; fi
 done
 git checkout -q -- .
+git clean -fdq
 git status --short | grep -v '^??' | head
